@@ -65,6 +65,7 @@ class Visitor(ast.NodeVisitor):
         recomputed_values: Mapping[ast.AST, Any],
         variable_lookup: List[Mapping[str, Any]],
         atok: asttokens.asttokens.ASTTokens,
+        mangled_names: Optional[Mapping[str, str]] = None,
     ) -> None:
         """
         Initialize.
@@ -80,6 +81,7 @@ class Visitor(ast.NodeVisitor):
         self._variable_lookup = variable_lookup
         self.reprs = dict()  # type: MutableMapping[str, str]
         self._atok = atok
+        self._mangled_names = mangled_names if mangled_names is not None else dict()  # type: Mapping[str, str]
 
     if sys.version_info >= (3, 6):
 
@@ -105,7 +107,11 @@ class Visitor(ast.NodeVisitor):
             # Check if it is a non-built-in
             is_builtin = True
             for lookup in self._variable_lookup:
-                if node.id in lookup:
+                # A private name written in a class body is found in the look-ups under its mangled name.
+                if (
+                    node.id in lookup
+                    or self._mangled_names.get(node.id, node.id) in lookup
+                ):
                     is_builtin = False
                     break
 
@@ -770,6 +776,7 @@ def repr_values(condition: Callable[..., bool], lambda_inspection: Optional[Cond
         assert lambda_inspection is None, "Expected no lambda inspection in a condition given as a non-lambda function"
 
     reprs = None  # type: Optional[MutableMapping[str, Any]]
+    mangled_names = dict()  # type: Mapping[str, str]
 
     if lambda_inspection is not None:
         variable_lookup = collect_variable_lookup(condition=condition, resolved_kwargs=selected_kwargs)
@@ -794,14 +801,17 @@ def repr_values(condition: Callable[..., bool], lambda_inspection: Optional[Cond
                     for i, lookup in enumerate(variable_lookup)
                 ]
 
+        mangled_names = _collect_mangled_names(condition=condition)
+
         recompute_visitor = icontract._recompute.Visitor(
-            variable_lookup=variable_lookup, mangled_names=_collect_mangled_names(condition=condition))
+            variable_lookup=variable_lookup, mangled_names=mangled_names)
 
         recompute_visitor.visit(node=lambda_inspection.node.body)
         recomputed_values = recompute_visitor.recomputed_values
 
         repr_visitor = Visitor(
-            recomputed_values=recomputed_values, variable_lookup=variable_lookup, atok=lambda_inspection.atok)
+            recomputed_values=recomputed_values, variable_lookup=variable_lookup, atok=lambda_inspection.atok,
+            mangled_names=mangled_names)
         repr_visitor.visit(node=lambda_inspection.node.body)
 
         reprs = repr_visitor.reprs
@@ -814,9 +824,18 @@ def repr_values(condition: Callable[..., bool], lambda_inspection: Optional[Cond
     if reprs is None:
         reprs = dict()
 
+    # A private parameter written in a class body bears a mangled name; it is listed as it was written.
+    written_names = {
+        mangled: written for written, mangled in mangled_names.items()
+    }  # type: Dict[str, str]
+
     for key in sorted(selected_kwargs.keys()):
         val = selected_kwargs[key]
-        if key not in reprs and _representable(value=val):
+        if (
+            key not in reprs
+            and written_names.get(key, key) not in reprs
+            and _representable(value=val)
+        ):
             reprs[key] = val
 
     parts = []  # type: List[str]
